@@ -104,7 +104,13 @@ fn create_case(prop: &str, fmt: ParserType, escaper: Escaper, cmd: &str, out: &[
         ParserType::Markdown => MarkdownTestCaseGenerator::default().generate_testcases(&[&outcome]),
         ParserType::Cram => CramTestCaseGenerator::default().generate_testcases(&[&outcome]),
     });
+    let mut crashed = false;
     let text = match generated {
+        // `expression_lines[0]` on an empty command (not an output of the property's quantifier): modelled as `crash`
+        Err(_) if cmd.is_empty() => {
+            crashed = true;
+            None
+        }
         Err(p) => {
             fails.push(("C09:generator-panic".to_string(), p));
             None
@@ -120,6 +126,14 @@ fn create_case(prop: &str, fmt: ParserType, escaper: Escaper, cmd: &str, out: &[
         // classify what the output holds, to name the failure class precisely
         let lines: Vec<&[u8]> = out.split_inclusive(|b| *b == b'\n').collect();
         let mut classes: Vec<&'static str> = vec![];
+        for l in lines.iter() {
+            // regression class of fix 9b34612: a printable line led by `$ ` / `> ` whose text ends in ` (no-eol)`
+            // was written `\x24… (no-eol) (escaped)` without the `\x20(no-eol)` guard
+            let t = l.strip_suffix(b"\n").unwrap_or(l);
+            if (t.starts_with(b"$ ") || t.starts_with(b"> ")) && t.ends_with(b" (no-eol)") && !escaper.has_unprintable(t) {
+                classes.push("first-char-escape-drops-no-eol-guard");
+            }
+        }
         for (i, l) in lines.iter().enumerate() {
             if let Some(c) = line_class(l, i == 0, cram) {
                 classes.push(c);
@@ -160,10 +174,19 @@ fn create_case(prop: &str, fmt: ParserType, escaper: Escaper, cmd: &str, out: &[
             }
         }
     }
-    let is_other: String = String::from_utf8(out.to_vec()).map(|s| s.chars().map(|c| if unicode_other(c) { '1' } else { '0' }).collect()).unwrap_or_default();
+    // the code points of the valid-UTF-8 lines for which the real `char::is_other()` holds
+    let mut others: Vec<u32> = vec![];
+    for l in out.split_inclusive(|b| *b == b'\n') {
+        if let Ok(s) = std::str::from_utf8(l) {
+            others.extend(s.chars().filter(|c| unicode_other(*c)).map(|c| c as u32));
+        }
+    }
+    others.sort();
+    others.dedup();
+    let others = if others.is_empty() { "-".to_string() } else { others.iter().map(|c| format!("{c:x}")).collect::<Vec<_>>().join(",") };
     CaseRec {
-        op: format!("gen {} {} {} {} {} {}", if cram { "c" } else { "m" }, esc_name(&escaper), code, hex(cmd.as_bytes()), hex(out), if is_other.is_empty() { "-".to_string() } else { is_other }),
-        impl_out: text.map(|t| hex(t.as_bytes())).unwrap_or("error".into()),
+        op: format!("gen {} {} {} {} {} {} {}", if cram { "c" } else { "m" }, esc_name(&escaper), code, hex(cmd.as_bytes()), hex(out), others, if cmd.contains("on-stderr") { "e" } else { "o" }),
+        impl_out: if crashed { "crash".into() } else { text.map(|t| hex(t.as_bytes())).unwrap_or("error".into()) },
         oracle_fail: keep(prop, fails),
         nontrivial: out.len() >= 2,
         tags: vec![tag.to_string(), format!("verdict={verdict}"), format!("fmt={}", if cram { "cram" } else { "md" })],
@@ -376,7 +399,9 @@ fn update_case(prop: &str, rng: &mut Rng, idx: u64) -> CaseRec {
         let (op, out) = c10_op.unwrap_or(("oracle-only upd-skip".to_string(), "oracle-only".to_string()));
         return CaseRec { op, impl_out: out, oracle_fail: keep(prop, fails), nontrivial: n_blocks >= 1, tags: vec![format!("update:blocks={n_blocks}"), format!("update:crlf={crlf}")] };
     }
-    CaseRec { op: format!("upd {}", hex(doc.as_bytes())), impl_out, oracle_fail: keep(prop, fails), nontrivial: n_blocks >= 1, tags: vec![format!("update:blocks={n_blocks}"), format!("update:crlf={crlf}")] }
+    // C09 runs only the oracles of the update streams: a no-op both sides agree on
+    let _ = impl_out;
+    CaseRec { op: "noop".to_string(), impl_out: "ok".to_string(), oracle_fail: keep(prop, fails), nontrivial: n_blocks >= 1, tags: vec![format!("update:blocks={n_blocks}"), format!("update:crlf={crlf}")] }
 }
 
 /// fixed update witnesses: (document, outputs per test)
@@ -420,7 +445,8 @@ fn update_witness(prop: &str, name: &str, doc: &str, outputs: Vec<(Vec<u8>, i32)
         let (op, out) = c10_op.unwrap_or(("oracle-only upd-skip".to_string(), "oracle-only".to_string()));
         return CaseRec { op, impl_out: out, oracle_fail: keep(prop, fails), nontrivial: true, tags: vec![format!("update:witness={name}")] };
     }
-    CaseRec { op: format!("upd {}", hex(doc.as_bytes())), impl_out, oracle_fail: keep(prop, fails), nontrivial: true, tags: vec![format!("update:witness={name}")] }
+    let _ = impl_out;
+    CaseRec { op: "noop".to_string(), impl_out: "ok".to_string(), oracle_fail: keep(prop, fails), nontrivial: true, tags: vec![format!("update:witness={name}")] }
 }
 
 /// lines of a Markdown document that are outside scrut blocks (foreign blocks count as outside)
@@ -504,6 +530,38 @@ pub fn run(ctx: &Ctx, prop: &str) {
         // a Cram document cannot carry an inline output_stream: the stderr variant is Markdown only
         let fmt = if cmd.contains("on-stderr") { ParserType::Markdown } else { fmt };
         Some(create_case(prop, fmt, esc, cmd, &out, *rng.pick(&[0, 0, 2]), "create-random"))
+    });
+    // lines assembled from syntax fragments: every combination of the first-character escape with the suffix logic
+    const PRE: [&[u8]; 7] = [b"$ ", b"> ", b"", b"[", b" ", b"$", b"```"];
+    const MID: [&[u8]; 8] = [b"foo", b"x\x01", b"a\\b", "\u{e9}".as_bytes(), b"12", b"", b"\xff", b"\\"];
+    const SUF: [&[u8]; 10] = [b"", b" (no-eol)", b" (glob)", b" (escaped)", b" (equal)", b"]", b" ", b"\\", b" (no-eol) (escaped)", b"\t(*)"];
+    let nfrag = (PRE.len() * MID.len() * SUF.len()) as u64;
+    ctx.run_stream("create-fragment-lines-exhaustive", nfrag * 2 * 2 * 2 * 2, true, |idx| {
+        let mut r = idx;
+        let final_nl = r % 2 == 0;
+        r /= 2;
+        let fmt = if r % 2 == 0 { ParserType::Markdown } else { ParserType::Cram };
+        r /= 2;
+        let esc = if r % 2 == 0 { Escaper::Unicode } else { Escaper::Ascii };
+        r /= 2;
+        let second = r % 2 == 0;
+        r /= 2;
+        let mut line = vec![];
+        line.extend_from_slice(PRE[(r % PRE.len() as u64) as usize]);
+        r /= PRE.len() as u64;
+        line.extend_from_slice(MID[(r % MID.len() as u64) as usize]);
+        r /= MID.len() as u64;
+        line.extend_from_slice(SUF[(r % SUF.len() as u64) as usize]);
+        let mut out = if second { b"first\n".to_vec() } else { vec![] };
+        out.extend_from_slice(&line);
+        if final_nl {
+            out.push(b'\n');
+        }
+        Some(create_case(prop, fmt, esc, "the command", &out, if second { 3 } else { 0 }, "create-fragments"))
+    });
+    ctx.run_stream("create-commands", 6, true, |idx| {
+        let cmd = ["", "a\n\nb", "caf\u{e9}\n\u{e9}t\u{e9}", "x\ny", "$ y", "> z\n> w"][idx as usize];
+        Some(create_case(prop, ParserType::Markdown, Escaper::Unicode, cmd, b"out\n", 0, "create-commands"))
     });
     ctx.run_stream("update-documents-random", if ctx.thorough { 100_000 } else { 6_000 }, false, |idx| {
         let mut rng = Rng::fork(seed, 52, idx);
@@ -682,7 +740,8 @@ fn c10_ref_segments(doc: &str) -> Vec<RefSeg> {
     segs
 }
 
-/// lines outside scrut blocks; front-matter delimiters as written
+/// lines outside scrut blocks; front-matter delimiters as written (`normal_front`: every
+/// front-matter closed, which is what `update` writes)
 fn c10_outside(segs: &[RefSeg], normal_front: bool) -> Vec<String> {
     let mut v = vec![];
     for s in segs {
@@ -692,9 +751,6 @@ fn c10_outside(segs: &[RefSeg], normal_front: bool) -> Vec<String> {
             RefSeg::Front { body, closed } => {
                 v.push("---".into());
                 v.extend(body.iter().cloned());
-                if normal_front && body.is_empty() {
-                    v.push(String::new());
-                }
                 if *closed || normal_front {
                     v.push("---".into());
                 }
@@ -774,10 +830,10 @@ fn c10_case(prop: &str, doc: &str, kinds: &[u64], tag: &str) -> CaseRec {
             let o1 = c10_outside(&segs, false);
             let o2 = c10_outside(&segs2, false);
             if o1 != o2 {
-                let front_empty = segs.iter().any(|s| matches!(s, RefSeg::Front { body, .. } if body.is_empty()));
+                // the only change: `---` appended after a front-matter that is never closed
                 let front_open = segs.iter().any(|s| matches!(s, RefSeg::Front { closed: false, .. }));
-                let class = if c10_outside(&segs, true) == o2 && (front_empty || front_open) {
-                    if front_empty { "C10:front-matter-empty-gains-blank-line" } else { "C10:front-matter-unterminated-gains-delimiter" }
+                let class = if front_open && c10_outside(&segs, true) == o2 {
+                    "C10:front-matter-unterminated-gains-delimiter"
                 } else if stray_cr {
                     "C10:stray-carriage-return-dropped"
                 } else {
